@@ -367,6 +367,7 @@ type vfC04Mode struct {
 	Name    string
 	Cfg     vfCfg
 	Resumed bool
+	Split   bool // the path delivers every record in a datagram of its own (a flight spans several datagrams)
 }
 
 func vfC04Modes() []vfC04Mode {
@@ -388,6 +389,24 @@ func vfC04Modes() []vfC04Mode {
 				ms = append(ms, vfC04Mode{Name: fmt.Sprintf("12-%s-ems%v-hv%v", base.n, ems, hv), Cfg: c})
 			}
 		}
+	}
+	// both sides' default suite lists: the order of the client's list decides the selection, so reordering it is an attack
+	for _, ems := range []bool{true, false} {
+		c := vfBaseCfg(vfSuiteInfo{Name: "default", Auth: "ecdsa"}, "ecdsa")
+		c.ALPN = 2
+		if !ems {
+			c.EMSc, c.EMSs = DisableExtendedMasterSecret, DisableExtendedMasterSecret
+		}
+		ms = append(ms, vfC04Mode{Name: fmt.Sprintf("12-multisuite-ems%v-hvtrue", ems), Cfg: c})
+		ms = append(ms, vfC04Mode{Name: fmt.Sprintf("12-multisuite-ems%v-hvtrue-split", ems), Cfg: c, Split: true})
+	}
+	for _, base := range []struct {
+		n, suite, kind string
+	}{{"ecdhe", "ECDSA-GCM128", "ecdsa"}, {"psk", "PSK-GCM", ""}} {
+		c := vfBaseCfg(vfSuiteByName(base.suite), base.kind)
+		c.EMSc, c.EMSs = DisableExtendedMasterSecret, DisableExtendedMasterSecret
+		c.HelloVerify = false
+		ms = append(ms, vfC04Mode{Name: fmt.Sprintf("12-%s-emsfalse-hvfalse-split", base.n), Cfg: c, Split: true})
 	}
 	c := vfBaseCfg(vfSuiteByName("PSK-GCM"), "")
 	c.Store = true
@@ -579,6 +598,15 @@ func vfC04Run(c vfC04Case, probe bool) (out vfC04Outcome, layout map[string]int)
 				frag = vfHSFragment(h.Type, h.Length, h.MsgSeq, h.FragOff, h.FragLen, newBody)
 			}
 			dg = append(dg, vfLegacyRecord(22, rc.Version, 0, rc.Seq, nil, -1, frag)...)
+		}
+		if c.Mode.Split {
+			if parts, ok := vfParseDatagram(dg, 0); ok && len(parts) > 1 {
+				for _, part := range parts {
+					n.Deliver(w.Dst, part.Raw, from)
+				}
+
+				return
+			}
 		}
 		n.Deliver(w.Dst, dg, from)
 	}
